@@ -126,9 +126,49 @@ func genFar(t *rapid.T, label string, b ref.Box) ref.Box {
 	return b
 }
 
+// genDecimalKin returns b with one index replaced by a number whose decimal spelling extends it by a digit (14 ->
+// 140..149) or drops its last digit (same zooms): neighbours in any textual treatment of IDs (prefix tests, string
+// order, fixed-width fields).
+func genDecimalKin(t *rapid.T, label string, b ref.Box) ref.Box {
+	ext := func(v int64) int64 {
+		d := rapid.Int64Range(0, 9).Draw(t, label+"_digit")
+		if rapid.IntRange(0, 3).Draw(t, label+"_drop") == 0 {
+			return v / 10
+		}
+		if v < 0 {
+			return v*10 - d
+		}
+		return v*10 + d
+	}
+	r := b
+	switch rapid.IntRange(0, 2).Draw(t, label+"_ax") {
+	case 0:
+		r.X = ext(b.X)
+		if !r.Valid() {
+			r.X = b.X / 10
+		}
+	case 1:
+		r.Y = ext(b.Y)
+		if !r.Valid() {
+			r.Y = b.Y / 10
+		}
+	default:
+		r.F = ext(b.F)
+		if !r.Valid() {
+			r.F = b.F / 10
+		}
+	}
+	if r.Valid() {
+		return r
+	}
+	return b
+}
+
 func genRelative(t *rapid.T, label string, b ref.Box, maxUp, maxDown int64) ref.Box {
-	kind := rapid.IntRange(0, 9).Draw(t, label+"_rel")
+	kind := rapid.IntRange(0, 10).Draw(t, label+"_rel")
 	switch kind {
+	case 10:
+		return genDecimalKin(t, label, b)
 	case 9:
 		return genFar(t, label, b)
 	case 0:
